@@ -15,24 +15,9 @@ Section Classes.
   Let unicast := negb (N.odd (byte_at b 6)).
   Let l3len := (n - 14)%nat.                (* bytes after the 14-byte Ethernet header *)
 
-  (* finding parse-arp-short (layer_frame.go:240, `len(arp) < 28 && arp[4] != 6`):
-     the index arp[4] is evaluated on ARP bodies shorter than 5 bytes (panic) and a body
-     shorter than 28 bytes with arp[4] == 6 is accepted; below 18 bytes the following
-     slice expression arp[14:18] panics, or reads the spare capacity when there is some. *)
-  Definition k_arp_trunc : bool :=
-    Nat.leb 14 n && unicast && (et =? 2054) && Nat.ltb l3len 28 &&
-    (Nat.leb l3len 4 || (byte_at b 18 =? 6)).
-  (* the part of the class that is unsafe (panic / capacity dependent), C01 *)
-  Definition k_arp_unsafe : bool := k_arp_trunc && Nat.ltb l3len 18.
-
-  (* finding parse-arp-hlen: with 28 bytes or more the hardware length is not looked at *)
-  Definition k_arp_hlen : bool :=
-    Nat.leb 14 n && unicast && (et =? 2054) && Nat.leb 28 l3len && negb (byte_at b 18 =? 6).
-
-  (* finding parse-vlan-short: EtherType 0x8100 / 0x88a8 and a frame shorter than the tagged
-     header (18 / 22): Parse returns nil and Frame.Payload() slices beyond the length *)
-  Definition k_vlan_short : bool :=
-    Nat.leb 14 n && (((et =? 33024) && Nat.ltb n 18) || ((et =? 34984) && Nat.ltb n 22)).
+  (* The classes parse-arp-short / parse-arp-hlen (layer_frame.go:240, `&&` for `||`) and parse-vlan-short
+     (tagged header longer than the frame) were repaired in /repo (see known_findings.txt "fixed:");
+     the model follows the repaired code and no class is left for C01. *)
 
   (* finding parse-ip4-ihl: IPv4 with IHL*4 < 20 accepted (the other tests of IsValid pass) *)
   Let ihl := N.to_nat (4 * (byte_at b 14 mod 16)).
@@ -50,16 +35,12 @@ Section Classes.
     Nat.ltb (40 + N.to_nat (word_at b 18)) l3len.
 
   Definition known_C02 : option string :=
-    if k_vlan_short then Some "parse-vlan-short"
-    else if k_arp_trunc then Some "parse-arp-short"
-    else if k_arp_hlen then Some "parse-arp-hlen"
-    else if k_ip4_ihl then Some "parse-ip4-ihl"
+    if k_ip4_ihl then Some "parse-ip4-ihl"
     else if k_ip4_totallen then Some "parse-ip4-totallen"
     else if k_ip6_trailing then Some "parse-ip6-trailing"
     else None.
 
-  Definition known_C01 : option string :=
-    if k_vlan_short then Some "parse-vlan-short"
-    else if k_arp_unsafe then Some "parse-arp-short"
-    else None.
 End Classes.
+
+(* no recorded class for C01 (Parse unit) any more *)
+Definition known_C01 (b : bytes) : option string := None.
